@@ -128,11 +128,52 @@ def all_origins(fn: ast.AST, e: ast.AST, depth: int = 0) -> List[ast.AST]:
 
 
 # ---------------------------------------------------------------------------- three-valued tests
-def tv_eval(test: ast.AST, assume: Dict[str, Optional[bool]]) -> Optional[bool]:
-    """Three-valued evaluation of a test under truthiness assumptions on dotted names."""
+def _int_cmp0(test: ast.AST, assume, ints) -> Optional[bool]:
+    """`x == 0`, `x != 0`, `(x, y) == (0, 0)`, `(x, y) != (0, 0)` (either operand order) for names known to be ints:
+    truthiness of an int is `!= 0`; a tuple equals the zero tuple iff every element is zero."""
+    if not (isinstance(test, ast.Compare) and len(test.ops) == 1 and isinstance(test.ops[0], (ast.Eq, ast.NotEq))):
+        return None
+    l, r = test.left, test.comparators[0]
+
+    def zero(e):
+        if isinstance(e, ast.Constant):
+            return type(e.value) is int and e.value == 0
+        return isinstance(e, ast.Tuple) and bool(e.elts) and all(zero(x) for x in e.elts)
+
+    if zero(l) and not zero(r):
+        l, r = r, l
+    if not zero(r):
+        return None
+    elts = l.elts if isinstance(l, ast.Tuple) else [l]
+    if isinstance(l, ast.Tuple) != isinstance(r, ast.Tuple) or (isinstance(l, ast.Tuple) and len(l.elts) != len(r.elts)):
+        return None
+    vals = []
+    for e in elts:
+        d = dotted(e)
+        if d is None or d not in ints or d not in assume:
+            return None
+        vals.append(assume[d])
+    if any(v is True for v in vals):
+        alleq: Optional[bool] = False
+    elif all(v is False for v in vals):
+        alleq = True
+    else:
+        alleq = None
+    if alleq is None:
+        return None
+    return alleq if isinstance(test.ops[0], ast.Eq) else (not alleq)
+
+
+def tv_eval(test: ast.AST, assume: Dict[str, Optional[bool]], ints=frozenset()) -> Optional[bool]:
+    """Three-valued evaluation of a test under truthiness assumptions on dotted names.  `ints` names the assumed
+    names known to hold ints (enables the `== 0` / zero-tuple comparisons)."""
     d = dotted(test)
     if d is not None and d in assume:
         return assume[d]
+    if ints:
+        z = _int_cmp0(test, assume, ints)
+        if z is not None:
+            return z
     if isinstance(test, (ast.Call, ast.Compare)):
         k = src(test)
         if k in assume:
@@ -145,10 +186,10 @@ def tv_eval(test: ast.AST, assume: Dict[str, Optional[bool]]) -> Optional[bool]:
     if isinstance(test, ast.Constant):
         return bool(test.value)
     if isinstance(test, ast.UnaryOp) and isinstance(test.op, ast.Not):
-        v = tv_eval(test.operand, assume)
+        v = tv_eval(test.operand, assume, ints)
         return None if v is None else (not v)
     if isinstance(test, ast.BoolOp):
-        vals = [tv_eval(v, assume) for v in test.values]
+        vals = [tv_eval(v, assume, ints) for v in test.values]
         if isinstance(test.op, ast.And):
             if any(v is False for v in vals):
                 return False
@@ -161,7 +202,7 @@ def tv_eval(test: ast.AST, assume: Dict[str, Optional[bool]]) -> Optional[bool]:
             return False
         return None
     if isinstance(test, ast.Call) and dotted(test.func) in ("any", "all") and len(test.args) == 1 and isinstance(test.args[0], (ast.List, ast.Tuple)):
-        vals = [tv_eval(v, assume) for v in test.args[0].elts]
+        vals = [tv_eval(v, assume, ints) for v in test.args[0].elts]
         if dotted(test.func) == "any":
             if any(v is True for v in vals):
                 return True
@@ -183,7 +224,7 @@ def tv_eval(test: ast.AST, assume: Dict[str, Optional[bool]]) -> Optional[bool]:
     return None
 
 
-def specialise(cfg: CFG, assume: Dict[str, Optional[bool]]) -> CFG:
+def specialise(cfg: CFG, assume: Dict[str, Optional[bool]], ints=frozenset()) -> CFG:
     """A copy of cfg with the branch edges removed that are infeasible under `assume`."""
     c = copy.copy(cfg)
     c.g = cfg.g.copy()
@@ -191,7 +232,7 @@ def specialise(cfg: CFG, assume: Dict[str, Optional[bool]]) -> CFG:
     c._ipdom = None
     for n, st in cfg.stmt.items():
         if isinstance(st, (ast.If, ast.While)):
-            v = tv_eval(st.test, assume)
+            v = tv_eval(st.test, assume, ints)
             if v is True:
                 f = cfg.edge_node(st, "false")
                 if c.g.has_edge(n, f):
@@ -252,7 +293,7 @@ def guarded_by(ctx, f: Func, node: ast.AST, pred: Callable[[ast.AST], Optional[b
     return False
 
 
-def inline(fn: ast.AST, e: ast.AST, depth: int = 0) -> ast.AST:
+def inline(fn: ast.AST, e: ast.AST, depth: int = 0, stop=frozenset()) -> ast.AST:
     """A copy of expression e in which every local that has exactly one definition (a plain expression, not a
     parameter) is replaced by that definition, recursively: `t = h(x); g(t)` is seen as `g(h(x))`."""
     if depth > 6:
@@ -260,12 +301,12 @@ def inline(fn: ast.AST, e: ast.AST, depth: int = 0) -> ast.AST:
 
     class _In(ast.NodeTransformer):
         def visit_Name(self, node):
-            if isinstance(node.ctx, ast.Load) and node.id not in params(fn):
+            if isinstance(node.ctx, ast.Load) and node.id not in params(fn) and node.id not in stop:
                 defs = assignments_to(fn, node.id)
                 if len(defs) == 1 and defs[0][1] is not None and isinstance(defs[0][0], (ast.Assign, ast.AnnAssign)):
                     v = defs[0][1]
                     if not any(isinstance(x, ast.Name) and x.id == node.id for x in ast.walk(v)):
-                        return inline(fn, copy.deepcopy(v), depth + 1)
+                        return inline(fn, copy.deepcopy(v), depth + 1, stop)
             return node
 
         def visit_Lambda(self, node):
